@@ -768,6 +768,62 @@ def _record_fields(P: Program, e: ast.expr) -> Optional[ast.expr]:
     return None
 
 
+_RECS: List = [()]
+
+
+def _propagate_literals(f: Func) -> Func:
+    """`a, b = (1, 'x')` -> `a = 1; b = 'x'`, and a scalar literal bound to a local stands for it in the statements of the same block that follow, up to
+    the next binding of the name (the copies a written-out table loop makes: `cpu__i1 = 1 ... Segment(baseline_cpu_seconds=cpu__i1)`)."""
+    stores: Dict[str, int] = {}
+    for x in own_nodes(f.node):
+        if isinstance(x, ast.Name) and isinstance(x.ctx, (ast.Store, ast.Del)):
+            stores[x.id] = stores.get(x.id, 0) + 1
+    params = set(f.params())
+    cands = [n for n in own_nodes(f.node) if isinstance(n, ast.Assign) and len(n.targets) == 1 and
+             ((isinstance(n.targets[0], ast.Name) and _scalar_literal(n.value) and ("__i" in n.targets[0].id or stores.get(n.targets[0].id) == 1))
+              or (isinstance(n.targets[0], ast.Tuple) and isinstance(n.value, ast.Tuple) and len(n.value.elts) == len(n.targets[0].elts)
+                  and all(isinstance(t, ast.Name) for t in n.targets[0].elts) and all(_scalar_literal(v) for v in n.value.elts)))]
+    if not cands:
+        return f
+    node = norm.clone(f.node)
+    changed = False
+    for owner in list(ast.walk(node)):
+        for fld, blk in _block_lists(owner):
+            i = 0
+            while i < len(blk):
+                st = blk[i]
+                if isinstance(st, ast.Assign) and len(st.targets) == 1 and isinstance(st.targets[0], ast.Tuple) and isinstance(st.value, ast.Tuple) \
+                        and len(st.value.elts) == len(st.targets[0].elts) and all(isinstance(t, ast.Name) for t in st.targets[0].elts) and all(_scalar_literal(v) for v in st.value.elts):
+                    blk[i:i + 1] = [ast.copy_location(ast.Assign(targets=[t], value=v), st) for t, v in zip(st.targets[0].elts, st.value.elts)]
+                    changed = True
+                    continue
+                if isinstance(st, ast.Assign) and len(st.targets) == 1 and isinstance(st.targets[0], ast.Name) and _scalar_literal(st.value) \
+                        and ("__i" in st.targets[0].id or stores.get(st.targets[0].id) == 1) and st.targets[0].id not in params:
+                    x = st.targets[0].id
+                    for later in blk[i + 1:]:
+                        if any(isinstance(y, ast.Name) and y.id == x and isinstance(y.ctx, (ast.Store, ast.Del)) for y in ast.walk(later)) \
+                                or any(isinstance(y, (ast.FunctionDef, ast.Lambda, ast.AsyncFunctionDef)) for y in ast.walk(later)):
+                            break
+                        for y in ast.walk(later):
+                            if isinstance(y, ast.Name) and y.id == x and isinstance(y.ctx, ast.Load):
+                                v = st.value
+                                y.__class__ = v.__class__
+                                keep = {k_: getattr(y, k_) for k_ in ("lineno", "col_offset", "end_lineno", "end_col_offset") if hasattr(y, k_)}
+                                y.__dict__.clear()
+                                y.__dict__.update(norm.clone(v).__dict__)
+                                y.__dict__.update(keep)
+                                changed = True
+                i += 1
+    if not changed:
+        return f
+    ast.fix_missing_locations(node)
+    for n in ast.walk(node):
+        for ch in ast.iter_child_nodes(n):
+            ch._parent = n  # type: ignore[attr-defined]
+    node._parent = getattr(f.node, "_parent", None)  # type: ignore[attr-defined]
+    return Func(f.mod, f.qual, node, f.cls)
+
+
 def _fold_literals(P: Program, f: Func) -> Func:
     """`Cls._fields` → the tuple of names; `list(<literal tuple>)` / `tuple(<literal list>)` → the display; a one-generator comprehension over a literal
     tuple / list of constants → the display it builds (`{c: g(getattr(r, c)) for c in ('a', 'b')}` → `{'a': g(r.a), 'b': g(r.b)}`)."""
@@ -781,6 +837,13 @@ def _fold_literals(P: Program, f: Func) -> Func:
             interesting = True
         if isinstance(x, ast.Call) and isinstance(x.func, ast.Name) and x.func.id in ("list", "tuple") and len(x.args) == 1 and isinstance(x.args[0], (ast.Tuple, ast.List, ast.Attribute)):
             interesting = True
+    from .erase import records as _records
+    _RECS[0] = set(_records(P))
+    cconst = class_constants(P, f)
+    if cconst and any(isinstance(x, ast.Attribute) and isinstance(x.ctx, ast.Load) and norm.U(x) in cconst for x in own_nodes(f.node)):
+        interesting = True
+    if any(isinstance(x, ast.Subscript) and isinstance(x.value, ast.Tuple) for x in own_nodes(f.node)):
+        interesting = True
     if not interesting:
         return f
     node = norm.clone(f.node)
@@ -792,11 +855,29 @@ def _fold_literals(P: Program, f: Func) -> Func:
     class T(ast.NodeTransformer):
         def visit_Attribute(self, n):
             nonlocal changed
+            if isinstance(n.ctx, ast.Load) and cconst:
+                t = norm.attr_chain(n)
+                if t is not None and t in cconst:
+                    changed = True
+                    return ast.copy_location(norm.clone(cconst[t]), n)          # a class-level literal nobody stores to
             self.generic_visit(n)
             r = _record_fields(P, n) if isinstance(n.ctx, ast.Load) else None
             if r is not None:
                 changed = True
                 return r
+            return n
+
+        def visit_Subscript(self, n):
+            nonlocal changed
+            self.generic_visit(n)
+            if isinstance(n.ctx, ast.Load) and isinstance(n.value, ast.Tuple) and isinstance(n.value.ctx, ast.Load):
+                i = n.slice
+                k_ = i.value if isinstance(i, ast.Constant) and isinstance(i.value, int) and not isinstance(i.value, bool) else \
+                    (-i.operand.value if isinstance(i, ast.UnaryOp) and isinstance(i.op, ast.USub) and isinstance(i.operand, ast.Constant) and isinstance(i.operand.value, int) else None)
+                if k_ is not None and -len(n.value.elts) <= k_ < len(n.value.elts) and not any(isinstance(e, ast.Starred) for e in n.value.elts) \
+                        and all(_literal(e, _RECS[0]) for e in n.value.elts):
+                    changed = True
+                    return n.value.elts[k_]
             return n
 
         def visit_Call(self, n):
@@ -1231,10 +1312,12 @@ def inline_helpers(P: Program, f: Func, depth: int = 2) -> Func:
         v = exit_flag_flow(P, v)                     # single exit with a result flag  ==  the early exits it stands for
         v = partition_lists(v)                       # kept/removed partition + `L[:] = kept`  ==  deferred removal of the removed members
         v = _named_literals(P, v)                    # a module constant the pinned tree does not have stands for its literal
-        v = _fold_literals(P, v)                     # Cls._fields, list(<literal>), comprehension over a literal tuple: written out
+        v = unroll_const_loops(P, v)                 # a loop over a constant table of literals is the sequence of its bodies
+        v = _fold_literals(P, v)                     # Cls._fields, list(<literal>), comprehension over a literal tuple, class-level literals: written out
         v = inline_predicates(P, v)                  # side-effect-free one-expression helpers, wherever they are called (loop tests, arguments, ...)
         v = erase(P, v)                              # local records (NamedTuples) written back as tuples / separate locals
-        hit = (P, f.node, dealias(_loop_field_aliases(_index_loops(_genexp_loops(_plain_assignments(v)))), subscripts=False))
+        v = _propagate_literals(_plain_assignments(v))
+        hit = (P, f.node, dealias(_loop_field_aliases(_index_loops(_genexp_loops(v))), subscripts=False))
         _INLINE_CACHE[k] = hit
     return hit[2]
 
@@ -1535,6 +1618,22 @@ def _search_result_flow(f: Func) -> Func:
                         changed = True
                         continue
                 k += 1
+    # a, b = (va, vb)  with plain operands that are none of the targets  ->  a = va; b = vb
+    for owner in list(ast.walk(node)):
+        for fld, blk in list(_block_lists(owner)):
+            k = 0
+            while k < len(blk):
+                st = blk[k]
+                if isinstance(st, ast.Assign) and len(st.targets) == 1 and isinstance(st.targets[0], ast.Tuple) and isinstance(st.value, ast.Tuple) \
+                        and len(st.targets[0].elts) == len(st.value.elts) and all(isinstance(t, ast.Name) for t in st.targets[0].elts) \
+                        and all(isinstance(v, (ast.Name, ast.Constant)) for v in st.value.elts) and any(isinstance(v, ast.Name) and "__i" in v.id for v in st.value.elts) \
+                        and not ({t.id for t in st.targets[0].elts} & {v.id for v in st.value.elts if isinstance(v, ast.Name)}):
+                    new = [ast.copy_location(ast.Assign(targets=[t], value=v), st) for t, v in zip(st.targets[0].elts, st.value.elts)]
+                    blk[k:k + 1] = new
+                    changed = True
+                    k += len(new)
+                    continue
+                k += 1
     # a, b = X  right after  X = (va, vb)
     for owner in list(ast.walk(node)):
         for fld, blk in list(_block_lists(owner)):
@@ -1562,8 +1661,18 @@ def _search_result_flow(f: Func) -> Func:
                and isinstance(n.value, ast.Name) and "__i" in n.value.id]:
         x, y = cp.targets[0].id, cp.value.id
         xs = [n for n in ast.walk(node) if isinstance(n, ast.Name) and n.id == x]
-        if sum(1 for n in xs if isinstance(n.ctx, (ast.Store, ast.Del))) != 1 or x in f.params():
+        if x in f.params():
             continue
+        if sum(1 for n in xs if isinstance(n.ctx, (ast.Store, ast.Del))) != 1:
+            # x is bound again later (a count-down `x -= 1`): still the same variable when nothing mentions x before the copy, the helper's local is
+            # not looked at after it, and the copy is not inside a branch or loop of its own relative to the later uses (it dominates them by position)
+            here = order.get(id(cp), (0, 0))[0]
+            if any(n is not cp.targets[0] and order.get(id(n), (0, 0))[0] < here for n in xs):
+                continue
+            if any(isinstance(n, ast.Name) and n.id == y and n is not cp.value and order.get(id(n), (0, 0))[0] > here for n in ast.walk(node)):
+                continue
+            if any(isinstance(n, (ast.Global, ast.Nonlocal)) for n in ast.walk(node)):
+                continue
         if any(isinstance(n.ctx, ast.Load) and order.get(id(n), (0, 0))[0] < order.get(id(cp), (0, 0))[0] for n in xs):
             continue
         for n in ast.walk(node):
@@ -1927,6 +2036,101 @@ def _plain_assignments(f: Func) -> Func:
     return Func(f.mod, f.qual, node, f.cls)
 
 
+def _merge_branch_yields(stmts: List[ast.stmt], var: str) -> List[ast.stmt]:
+    """`if c: yield A  else: yield B`  (every branch of the case split ends with a yield, there are at least two)  ->  `if c: v = A else: v = B; yield v`:
+    one place where the value is handed over, so the consumer's loop body is written out once and not once per branch"""
+    def leaves(st) -> Optional[List[List[ast.stmt]]]:
+        if not (isinstance(st, ast.If) and st.orelse):
+            return None
+        out = []
+        for br in (st.body, st.orelse):
+            last = br[-1]
+            if isinstance(last, ast.Expr) and isinstance(last.value, ast.Yield) and last.value.value is not None:
+                out.append(br)
+            else:
+                sub = leaves(last)
+                if sub is None:
+                    return None
+                out.extend(sub)
+        return out
+    res: List[ast.stmt] = []
+    for st in stmts:
+        lv = leaves(st)
+        if lv is not None and len(lv) >= 2 and not any(isinstance(x, (ast.Yield, ast.YieldFrom)) for br in lv for z in br[:-1] for x in ast.walk(z)):
+            for br in lv:
+                y = br[-1]
+                br[-1] = ast.copy_location(ast.Assign(targets=[ast.copy_location(ast.Name(id=var, ctx=ast.Store()), y)], value=y.value.value), y)
+            res.append(st)
+            res.append(ast.copy_location(ast.Expr(value=ast.copy_location(ast.Yield(value=ast.copy_location(ast.Name(id=var, ctx=ast.Load()), st)), st)), st))
+            continue
+        for fld in ("body", "orelse", "finalbody"):
+            b = getattr(st, fld, None)
+            if isinstance(b, list) and b and isinstance(b[0], ast.stmt):
+                setattr(st, fld, _merge_branch_yields(b, var))
+        res.append(st)
+    return res
+
+
+def _bounded_generator(body: List[ast.stmt], tag: str, acc: str, n: ast.expr) -> bool:
+    """see the islice case of the materialisation; rewrites the loop test in place when the shape fits"""
+    if not body or not isinstance(body[-1], ast.While) or body[-1].orelse:
+        return False
+    w = body[-1]
+    suffix = f"__{tag}"
+
+    def local_target(t) -> bool:
+        while isinstance(t, (ast.Subscript, ast.Attribute)):
+            t = t.value
+        return isinstance(t, ast.Name) and t.id.endswith(suffix)
+
+    def quiet(st) -> bool:
+        """binds generator locals only, calls nothing that could be observed"""
+        if not isinstance(st, (ast.Assign, ast.AugAssign, ast.AnnAssign)):
+            return False
+        tg = st.targets if isinstance(st, ast.Assign) else [st.target]
+        if not all(isinstance(t, ast.Name) and t.id.endswith(suffix) or (isinstance(t, ast.Subscript) and local_target(t)) for t in tg):
+            return False
+        return all(_pure_call(c) or norm.call_name(c) == "iter" for c in ast.walk(st) if isinstance(c, ast.Call))
+    if any(isinstance(x, (ast.Yield, ast.YieldFrom)) for s_ in body[:-1] for x in ast.walk(s_)) or not all(quiet(s_) for s_ in body[:-1]):
+        return False
+    ys = [x for x in ast.walk(w) if isinstance(x, (ast.Yield, ast.YieldFrom))]
+    if len(ys) != 1 or isinstance(ys[0], ast.YieldFrom):
+        return False
+    # the yield is not inside a nested loop, and what follows its top-level statement in the iteration is quiet
+    top = None
+    for i, s_ in enumerate(w.body):
+        if any(x is ys[0] for x in ast.walk(s_)):
+            top = i
+    if top is None:
+        return False
+    holder = w.body[top]
+    for x in ast.walk(holder):
+        if isinstance(x, (ast.For, ast.While, ast.AsyncFor)) and any(y is ys[0] for y in ast.walk(x)):
+            return False
+    if any(isinstance(x, (ast.Break, ast.Return)) for x in ast.walk(w)):
+        return False
+
+    def after_yield_quiet(stmts) -> bool:
+        """in the statement list that (transitively) holds the yield: everything after it is quiet"""
+        for i, s_ in enumerate(stmts):
+            if isinstance(s_, ast.Expr) and s_.value is ys[0]:
+                return all(quiet(z) for z in stmts[i + 1:])
+            if any(x is ys[0] for x in ast.walk(s_)):
+                for fld in ("body", "orelse", "finalbody"):
+                    b_ = getattr(s_, fld, None)
+                    if isinstance(b_, list) and any(x is ys[0] for z in b_ for x in ast.walk(z)):
+                        if not after_yield_quiet(b_):
+                            return False
+                return all(quiet(z) for z in stmts[i + 1:])
+        return True
+    if not after_yield_quiet(w.body):
+        return False
+    bound = ast.Compare(left=ast.Call(func=ast.Name(id="len", ctx=ast.Load()), args=[ast.Name(id=acc, ctx=ast.Load())], keywords=[]), ops=[ast.Lt()], comparators=[norm.clone(n)])
+    w.test = ast.copy_location(ast.BoolOp(op=ast.And(), values=[bound, w.test]), w.test)
+    ast.fix_missing_locations(w)
+    return True
+
+
 def _inline_helpers(P: Program, f: Func, depth: int = 2) -> Func:
     """A copy of f in which statement-level calls of single-use private helpers are replaced by the helper's body.
     Recognised call positions:  `self._m(...)` / `_f(...)` as a statement,  `x = <call>`,  `return <call>`."""
@@ -1979,16 +2183,28 @@ def _inline_helpers(P: Program, f: Func, depth: int = 2) -> Func:
                 continue
             # X = sorted(gen(..), key=..) / list(gen(..)) / sum(gen(..)) ...: a generator helper that is consumed completely, on the spot, by a
             # builtin is the list of what it yields:  acc = []; <body of gen with `yield v` -> acc.append(v)>; X = sorted(acc, key=..)
+            sliced = None
             if d > 0 and isinstance(st, (ast.Expr, ast.Return, ast.Assign)) and isinstance(st.value, ast.Call) and isinstance(st.value.func, ast.Name) \
                     and st.value.func.id in ("sorted", "list", "tuple", "set", "frozenset", "sum", "max", "min") and st.value.args \
-                    and isinstance(st.value.args[0], ast.Call) and _inlinable(P, f, st.value.args[0], allow_yield=True) is not None:
-                hc = st.value.args[0]
+                    and isinstance(st.value.args[0], ast.Call) and norm.call_name(st.value.args[0]) == "islice" and len(st.value.args[0].args) == 2 and not st.value.args[0].keywords \
+                    and isinstance(st.value.args[0].args[0], ast.Call) and isinstance(st.value.args[0].args[1], (ast.Name, ast.Constant)) \
+                    and _inlinable(P, f, st.value.args[0].args[0], allow_yield=True) is not None:
+                sliced = st.value.args[0]          # list(islice(gen(..), n)): the first n of what gen yields (see below)
+            if d > 0 and isinstance(st, (ast.Expr, ast.Return, ast.Assign)) and isinstance(st.value, ast.Call) and isinstance(st.value.func, ast.Name) \
+                    and st.value.func.id in ("sorted", "list", "tuple", "set", "frozenset", "sum", "max", "min") and st.value.args \
+                    and isinstance(st.value.args[0], ast.Call) and (sliced is not None or _inlinable(P, f, st.value.args[0], allow_yield=True) is not None):
+                hc = st.value.args[0] if sliced is None else sliced.args[0]
                 t2 = _inlinable(P, f, hc, allow_yield=True)
                 counter[0] += 1
                 tag = f"i{counter[0]}"
                 body2, _ret = _instantiate(t2, hc, tag)
                 acc = f"yielded__{tag}"
                 okm = True
+                if sliced is not None:
+                    # islice(gen, n) stops the generator right after its n-th yield.  When the generator is `PRELUDE; while T: BODY` with one yield per
+                    # iteration, a PRELUDE that only builds locals, and nothing but updates of the generator's own locals after the yield, that is
+                    # `while len(acc) < n and T: BODY` — the rest of the last iteration only changes state that is thrown away with the generator.
+                    okm = _bounded_generator(body2, tag, acc, sliced.args[1])
 
                 def to_append(stmts_):
                     nonlocal okm
@@ -2025,6 +2241,9 @@ def _inline_helpers(P: Program, f: Func, depth: int = 2) -> Func:
                     st.value.args[0] = ast.copy_location(ast.Name(id=acc, ctx=ast.Load()), hc)
                     queue.insert(0, st)
                     changed_any = True
+                    continue
+                elif sliced is not None:
+                    out.append(st)
                     continue
             # recv.m(a, helper(..), b): the helper runs before the outer call; its body may be placed before the statement when
             # everything evaluated before it is a plain name / attribute / constant
@@ -2137,6 +2356,7 @@ def _inline_helpers(P: Program, f: Func, depth: int = 2) -> Func:
                         and not any(isinstance(x, ast.YieldFrom) or (isinstance(x, ast.Yield) and not isinstance(parent(x), ast.Expr)) for x in own_nodes(tgen.node)):
                     counter[0] += 1
                     gbody, _r = _instantiate(tgen, it, f"i{counter[0]}")
+                    gbody = _merge_branch_yields(gbody, f"yielded__i{counter[0]}")
                     renames = {}
 
                     def at_yield(stmts_: List[ast.stmt]) -> List[ast.stmt]:
@@ -2700,20 +2920,68 @@ def dealias(f: Func, subscripts: bool = True) -> Func:
 # ---------------------------------------------------------------------------------------------------------------------
 # table-driven case splits:  for bound, a, b in _TABLE: if x < bound: return F(a, b)      ==      the unrolled if-chain
 
-def _literal(e: ast.expr) -> bool:
+def _literal(e: ast.expr, recs=()) -> bool:
     if isinstance(e, ast.Constant):
         return True
     if isinstance(e, ast.UnaryOp) and isinstance(e.op, (ast.USub, ast.UAdd)) and isinstance(e.operand, ast.Constant):
         return True
     if isinstance(e, (ast.Tuple, ast.List)):
-        return all(_literal(x) for x in e.elts)
+        return all(_literal(x, recs) for x in e.elts)
+    if isinstance(e, ast.Call) and isinstance(e.func, ast.Name) and e.func.id in recs:          # a record (new NamedTuple) built from literals
+        return all(_literal(x, recs) for x in e.args) and all(k.arg is not None and _literal(k.value, recs) for k in e.keywords)
     return False
+
+
+def class_constants(P: Program, f: Func) -> Dict[str, ast.expr]:
+    """class-level names of f's class bound once in the class body to a literal (scalars, tuples of them, records built from them) and stored
+    nowhere in the package (no `<x>.NAME = ..` anywhere):  {'self.NAME': value, 'Cls.NAME': value}"""
+    if not (f.cls and f.cls in f.mod.classes):
+        return {}
+    k = (id(P), f.mod.rel, f.cls)
+    hit = _CLSCONST_CACHE.get(k)
+    if hit is not None and hit[0] is P:
+        return hit[1]
+    from .erase import records
+    recs = set(records(P))
+    out: Dict[str, ast.expr] = {}
+    body = f.mod.classes[f.cls].node.body
+    cnt: Dict[str, int] = {}
+    for st in body:
+        if isinstance(st, (ast.Assign, ast.AnnAssign, ast.AugAssign)):
+            for t in (st.targets if isinstance(st, ast.Assign) else [st.target]):
+                for x in ast.walk(t):
+                    if isinstance(x, ast.Name):
+                        cnt[x.id] = cnt.get(x.id, 0) + 1
+    pinned = pinned_constant_names()
+    for st in body:
+        if isinstance(st, ast.Assign) and len(st.targets) == 1 and isinstance(st.targets[0], ast.Name) and cnt.get(st.targets[0].id) == 1 \
+                and isinstance(st.value, (ast.Tuple, ast.Constant, ast.UnaryOp, ast.Call)) and _literal(st.value, recs) and st.targets[0].id not in pinned:
+            nm = st.targets[0].id
+            stored = False
+            for m in P.real_modules():
+                for x in ast.walk(m.tree):
+                    if isinstance(x, ast.Attribute) and x.attr == nm and isinstance(x.ctx, (ast.Store, ast.Del)):
+                        stored = True
+                    if isinstance(x, ast.Call) and isinstance(x.func, ast.Name) and x.func.id in ("setattr", "delattr"):
+                        stored = True
+            if not stored:
+                out[f"self.{nm}"] = st.value
+                out[f"{f.cls}.{nm}"] = st.value
+                out[f"cls.{nm}"] = st.value
+    _CLSCONST_CACHE[k] = (P, out)
+    return out
+
+
+_CLSCONST_CACHE: Dict = {}
 
 
 def unroll_const_loops(P: Program, f: Func, limit: int = 24) -> Func:
     """A copy of f in which every `for <targets> in <NAME>` over a module-level (or class-level) constant table of literals is written out:
     one copy of the body per row, the loop variables replaced by the row's literals.  Only loops without break / continue / else."""
     tables: Dict[str, ast.expr] = {k: v for k, v in f.mod.module_assigns().items() if isinstance(v, (ast.Tuple, ast.List)) and _literal(v) and len(v.elts) <= limit}
+    for k_, v_ in class_constants(P, f).items():
+        if isinstance(v_, ast.Tuple) and len(v_.elts) <= limit:
+            tables[k_] = v_
     if f.cls and f.cls in f.mod.classes:
         for st in f.mod.classes[f.cls].node.body:
             if isinstance(st, ast.Assign) and len(st.targets) == 1 and isinstance(st.targets[0], ast.Name) and isinstance(st.value, (ast.Tuple, ast.List)) and _literal(st.value) \
